@@ -1460,6 +1460,17 @@ func (p *parser) lowerObjectRestHelper(
 		return nil, false
 	}
 
+	// Temporaries that are not declared separately end up as declarations in
+	// the lowered statement itself, so they must be recorded as declared
+	// symbols or the renamer will not avoid collisions with their names.
+	generateTempRef := func() ast.Ref {
+		ref := p.generateTempRef(declare, "")
+		if declare == tempRefNoDeclare {
+			p.recordDeclaredSymbol(ref)
+		}
+		return ref
+	}
+
 	// Check if this could possibly contain an object rest binding
 	switch rootExpr.Data.(type) {
 	case *js_ast.EArray, *js_ast.EObject:
@@ -1504,7 +1515,7 @@ func (p *parser) lowerObjectRestHelper(
 	var visit func(js_ast.Expr, js_ast.Expr, []func() js_ast.Expr)
 
 	captureIntoRef := func(expr js_ast.Expr) ast.Ref {
-		ref := p.generateTempRef(declare, "")
+		ref := generateTempRef()
 		assign(js_ast.Expr{Loc: expr.Loc, Data: &js_ast.EIdentifier{Ref: ref}}, expr)
 		p.recordUsage(ref)
 		return ref
@@ -1554,7 +1565,7 @@ func (p *parser) lowerObjectRestHelper(
 		}
 
 		// Swap the binding with a temporary
-		splitRef := p.generateTempRef(declare, "")
+		splitRef := generateTempRef()
 		deferredBinding := *binding
 		binding.Data = &js_ast.EIdentifier{Ref: splitRef}
 		items := append(before, split)
@@ -1563,7 +1574,7 @@ func (p *parser) lowerObjectRestHelper(
 		var tailExpr js_ast.Expr
 		var tailInit js_ast.Expr
 		if len(after) > 0 {
-			tailRef := p.generateTempRef(declare, "")
+			tailRef := generateTempRef()
 			loc := after[0].Loc
 			tailExpr = js_ast.Expr{Loc: loc, Data: &js_ast.EArray{Items: after, IsSingleLine: isSingleLine}}
 			tailInit = js_ast.Expr{Loc: loc, Data: &js_ast.EIdentifier{Ref: tailRef}}
@@ -1605,7 +1616,7 @@ func (p *parser) lowerObjectRestHelper(
 		binding := &split.ValueOrNil
 
 		// Swap the binding with a temporary
-		splitRef := p.generateTempRef(declare, "")
+		splitRef := generateTempRef()
 		deferredBinding := *binding
 		binding.Data = &js_ast.EIdentifier{Ref: splitRef}
 		p.recordUsage(splitRef)
